@@ -49,6 +49,21 @@ func (e *Engine) invoke(st *State, f *Frame, res ssa.Value, in ssa.Instruction, 
 		}, iv, cc.Method.Name(), args) {
 			return
 		}
+		if iv.typ != nil && iv.typ == e.ctxType() {
+			switch cc.Method.Name() {
+			case "Done":
+				if res != nil {
+					f.locals[res] = st.obj(iv.val.(PtrV).obj).fields[0]
+				}
+				return
+			case "Err":
+				if res != nil {
+					f.locals[res] = IfaceV{}
+				}
+				return
+			}
+			panic(hardErr("context method " + cc.Method.Name()))
+		}
 		if e.isWrapErr(iv) && cc.Method.Name() == "Error" {
 			if res != nil {
 				f.locals[res] = st.obj(iv.val.(PtrV).obj).fields[0]
@@ -64,6 +79,10 @@ func (e *Engine) invoke(st *State, f *Frame, res ssa.Value, in ssa.Instruction, 
 	case cc.StaticCallee() != nil && !isClosureCall(cc):
 		callee = cc.StaticCallee()
 	default:
+		if nf, ok := fnv.(NativeFn); ok {
+			e.callNative(st, f, res, nf, args)
+			return
+		}
 		fv, ok := fnv.(FuncV)
 		if !ok || fv.fn == nil {
 			e.panicCheck(st, f, in, e.tb.ff, "call of nil function")
@@ -85,6 +104,13 @@ func (e *Engine) callFunction(st *State, f *Frame, res ssa.Value, in ssa.Instruc
 	}
 	if isTurnPkg(callee.Pkg) || (callee.Pkg == nil && callee.Parent() != nil && isTurnPkg(callee.Parent().Pkg)) {
 		if h, ok := intrinsics[callee.Name()]; ok && strings.HasPrefix(callee.Name(), "v") && callee.Parent() == nil {
+			h(e, ctx)
+			return
+		}
+	}
+	if e.ia {
+		if h, ok := iaStubs[name]; ok {
+			e.sawStub(name)
 			h(e, ctx)
 			return
 		}
@@ -130,6 +156,25 @@ func (e *Engine) pushFrame(st *State, callee *ssa.Function, args, bind []Value, 
 	return nf
 }
 
+func (e *Engine) callNative(st *State, f *Frame, res ssa.Value, nf NativeFn, args []Value) {
+	switch nf.name {
+	case "ctxCancel":
+		ch := nf.data.(ChanV)
+		o := st.mut(ch.obj)
+		if !o.ch.closed {
+			o.ch.closed = true
+			e.wakeSelectors(st, ch.obj)
+			for _, t := range st.threads {
+				if t.waitCh == ch.obj && !t.done {
+					e.wakeReceiver(st, ch.obj, e.zeroVal(t.elemT), false)
+				}
+			}
+		}
+	default:
+		panic(hardErr("native function " + nf.name))
+	}
+}
+
 // callValue invokes a function value with a continuation instead of an SSA result slot.
 func (e *Engine) callValue(st *State, fv FuncV, args []Value, onReturn func(st *State, res Value)) {
 	if fv.fn == nil {
@@ -153,7 +198,7 @@ func denyExec(fn *ssa.Function) bool {
 	}
 	p := fn.Pkg.Pkg.Path()
 	switch p {
-	case "fmt", "os", "syscall", "runtime", "reflect", "log", "sync", "sync/atomic", "time", "math/big", "io",
+	case "fmt", "os", "syscall", "runtime", "reflect", "log", "sync", "sync/atomic", "time", "math/big",
 		"crypto/hmac", "crypto/sha256", "crypto/sha1", "crypto/md5", "crypto/rand", "hash/crc32", "context",
 		"crypto/tls", "strconv", "unicode/utf8", "internal/bytealg", "math/rand", "encoding/hex", "encoding/base64",
 		"github.com/pion/logging", "github.com/pion/randutil", "crypto/subtle", "sort", "slices", "bufio", "net/netip":
@@ -172,6 +217,13 @@ func denyExec(fn *ssa.Function) bool {
 		return true
 	}
 	if p == "strings" || p == "bytes" {
+		return true
+	}
+	if p == "io" {
+		switch fn.Name() {
+		case "ReadFull", "ReadAtLeast":
+			return false
+		}
 		return true
 	}
 	if p == "errors" {
@@ -575,11 +627,38 @@ func (e *Engine) chanRecv(st *State, f *Frame, x *ssa.UnOp, c ChanV, commaOk boo
 
 func (e *Engine) suspendRecv(st *State, ch int, x ssa.Value, commaOk bool, et types.Type) bool {
 	if len(st.resume) == 0 && !e.hasRunnable(st) {
-		return false // nobody else could ever send: a genuine block of the main goroutine
+		// nothing runnable: start the oldest goroutine that was spawned but never started, if any
+		t := &Thread{frames: st.frames, waitCh: ch, recv: x, commaOk: commaOk, elemT: et}
+		if !e.autoStart(st, func() { st.threads = append(st.threads, t); st.frames = nil }) {
+			return false // nobody else could ever send: a genuine block
+		}
+		return true
 	}
 	t := &Thread{frames: st.frames, waitCh: ch, recv: x, commaOk: commaOk, elemT: et}
 	st.threads = append(st.threads, t)
 	st.frames = nil
+	return true
+}
+
+// autoStart starts the most recently spawned goroutine that has not been started yet (the ones a
+// blocked function just created come first); before() runs once a candidate is found.
+func (e *Engine) autoStart(st *State, before func()) bool {
+	next := -1
+	for i := len(st.spawns) - 1; i >= 0; i-- {
+		if !st.started[i] {
+			next = i
+			break
+		}
+	}
+	if next < 0 {
+		return false
+	}
+	if st.started == nil {
+		st.started = map[int]bool{}
+	}
+	st.started[next] = true
+	before()
+	e.invokeRoot(st, nil, nil, st.spawns[next])
 	return true
 }
 
@@ -606,6 +685,12 @@ func (e *Engine) switchThread(st *State) bool {
 		st.resume = st.resume[:n-1]
 		st.frames = t.frames
 		return true
+	}
+	// somebody is still blocked and there are goroutines that never ran: let the next one run
+	for _, t := range st.threads {
+		if t.waitCh != 0 && !t.done {
+			return e.autoStart(st, func() {})
+		}
 	}
 	return false
 }
